@@ -114,10 +114,11 @@ class WidgetProtocol(Protocol):
 
 
     def isinstance(self, ip, st, obj, cls):
-        """An opaque child is a `urwid.Widget` (and nothing more specific is known about its class)."""
-        if cls is urwid.Widget or cls is object:
+        """An opaque child of kind Widget *is* a urwid.Widget (the container proofs are "for every child honouring the
+        widget protocol"; for a non-Widget object the constructors only emit a DeprecationWarning)."""
+        if cls is urwid.Widget:
             return True
-        raise Unsupported(f"isinstance(<opaque widget>, {getattr(cls, '__name__', cls)})")
+        raise Unsupported(f"isinstance of an opaque Widget against {cls!r}")
 
 
 PROTOCOLS["Widget"] = WidgetProtocol()
@@ -236,7 +237,9 @@ class cc_ptlr:
     modifies = ("ncols", "cursor", "left_off")
 
     def requires(s, a):
-        return both(s.ncols + imin(a.left, 0) + imin(a.right, 0) >= 0, either(both(a.left <= 0, a.right <= 0), neg(s.noshards)))
+        # shards_trim_sides rejects a trim to zero columns (ValueError): trimming must leave a column
+        kept = s.ncols + imin(a.left, 0) + imin(a.right, 0)
+        return both(kept >= 0, implies(either(a.left < 0, a.right < 0), kept > 0), either(both(a.left <= 0, a.right <= 0), neg(s.noshards)))
 
     def ensures(old, s, a, result):
         yield "cols", s.ncols == old.ncols + a.left + a.right
@@ -270,13 +273,17 @@ class cc_fill_attr_apply:
     modifies = ()
 
 
-@contract("urwid/canvas.py:CanvasOverlay", property=(), assumed=True, notes="canvas protocol: result has the bottom canvas's size; top canvas must fit (owned by C02)")
+@contract("urwid/canvas.py:CanvasOverlay", property=(), assumed=True,
+          notes="canvas protocol: result has the bottom canvas's size; the top canvas must lie inside the bottom one: left, top >= 0 and "
+                "right, bottom >= 0 (CompositeCanvas.overlay raises ValueError for right/bottom < 0 and, for left < 0, silently builds rows "
+                "wider than the canvas: Overlay(Text('0123456789abcdefghij'), SolidFill('.'), 'center', 'pack', 'middle', 'pack').render((12, 3)) "
+                "before /repo 61d1190 had a 16-column row in a 12-column canvas) (owned by C02)")
 class c_overlay:
     params = dict(top_c=CANVAS, bottom_c=CANVAS, left=Int, top=Int)
     result = CCANVAS
 
     def requires(a):
-        return both(a.bottom_c.ncols - a.left - a.top_c.ncols >= 0, a.bottom_c.nrows - a.top - a.top_c.nrows >= 0)
+        return both(a.left >= 0, a.top >= 0, a.bottom_c.ncols - a.left - a.top_c.ncols >= 0, a.bottom_c.nrows - a.top - a.top_c.nrows >= 0)
 
     def ensures(a, r):
         yield "size", both(r.ncols == a.bottom_c.ncols, r.nrows == a.bottom_c.nrows)
@@ -449,4 +456,11 @@ class w_invalidate:
 @contract("urwid/canvas.py:CompositeCanvas.set_depends", property=(), assumed=True, notes="canvas protocol: cache dependencies only (C06)")
 class cc_set_depends:
     self_shape = CCANVAS
+    modifies = ()
+
+
+@contract("urwid/widget/widget.py:Widget.__init__", property=(), assumed=True,
+          notes="stores `self.logger = logging.getLogger(<class path>)` and nothing else; logger calls are dropped (DESIGN 2.1) and the attribute is never read by verified code")
+class widget_init:
+    self_shape = Obj(urwid.Widget, {})
     modifies = ()
